@@ -23,6 +23,9 @@ def c06(case, f):
         # is looked up in the *outer* query's alias map: an alias, or the bare name of a schema-qualified table, falls through to Table(qualifier)
         if (b in feat["select_subquery_aliases"] or b in feat["select_subquery_tables"] or b in feat["select_subquery_fullname_schemas"]) and t.startswith("<default>."):
             return "KF-39"
+        # KF-40: the alias of the table an UPDATE writes is not registered: a SET source qualified with it falls through to Table(alias)
+        if b in feat["update_first_table_aliases"] and t.startswith("<default>."):
+            return "KF-40"
         # KF-16e: the legacy analyzer takes the first part of schema.table.column as the qualifier: a phantom table named after the schema
         if case.get("dialect") == "non-validating" and b in feat["fullname_schemas"]:
             return "KF-16e"
